@@ -1160,6 +1160,19 @@ Proof. intros v H. unfold rad_ok in H. apply andb_true_iff in H. destruct H as [
 Lemma mass_ok_nonzero : forall v, mass_ok v = true -> v <> 0%Z.
 Proof. intros v H. unfold mass_ok in H. apply Z.ltb_lt in H. lia. Qed.
 
+(* the writer only prints positive MASS= / RAD= values: the reader's "negative value" test never fires *)
+Lemma last_negative_keep : forall cond o, (forall v, cond v = true -> (0 <= v)%Z) ->
+  last_negative (match keep cond o with Some v => [v] | None => [] end) = false.
+Proof.
+  intros cond o H. unfold keep. destruct o as [v|]; [|reflexivity].
+  destruct (cond v) eqn:E; [|reflexivity]. unfold last_negative. cbn [rev app].
+  apply Z.ltb_ge. exact (H v E).
+Qed.
+Lemma rad_ok_nonneg : forall v, rad_ok v = true -> (0 <= v)%Z.
+Proof. intros v H. unfold rad_ok in H. apply andb_true_iff in H. destruct H as [H _]. apply Z.ltb_lt in H. lia. Qed.
+Lemma mass_ok_nonneg : forall v, mass_ok v = true -> (0 <= v)%Z.
+Proof. intros v H. unfold mass_ok in H. apply Z.ltb_lt in H. lia. Qed.
+
 (* ---- tokens that are never a property key ---- *)
 Definition key_texts : list text := [t "CHG"; t "MASS"; t "RAD"].
 Definition not_a_key (tk : text) : Prop := forall k, In k key_texts -> key_matches k tk = false.
@@ -1375,6 +1388,7 @@ Proof.
   change (Z.eqb 0 0) with true. cbv iota.
   rewrite (prop_values_mass x H). cbn [bind ok].
   rewrite (prop_values_rad x H). cbn [bind ok].
+  rewrite (last_negative_keep mass_ok _ mass_ok_nonneg), (last_negative_keep rad_ok _ rad_ok_nonneg). cbn [orb].
   rewrite (last_nonzero_keep chg_ok _ chg_ok_nonzero), (last_nonzero_keep mass_ok _ mass_ok_nonzero),
           (last_nonzero_keep rad_ok _ rad_ok_nonzero).
   unfold expected_atom. do 3 f_equal. lia.
@@ -1433,24 +1447,28 @@ Lemma bond_tokens_nth : forall ib,
 Proof. intro ib. repeat split. Qed.
 
 Lemma parse_bonds_written : forall bs i acc,
+  Forall (fun b => fst (fst b) <> snd (fst b)) bs ->
   NoDup (map fst acc ++ map bkey bs) ->
   parse_bonds (map bond_tokens (enumerate_from i bs)) [] acc
   = ok (acc ++ map (fun b => (bkey b, opt_default 1%Z (snd b))) bs).
 Proof.
-  induction bs as [|b bs IH]; intros i acc Hnd.
+  induction bs as [|b bs IH]; intros i acc Hnl Hnd.
   - cbn [enumerate_from map parse_bonds]. rewrite app_nil_r. reflexivity.
-  - cbn [enumerate_from map parse_bonds].
+  - inversion Hnl as [|? ? Hb Hbs]; subst. cbn [enumerate_from map parse_bonds].
     destruct (bond_tokens_nth (i, b)) as [E3 [E4 E5]]. cbn [fst snd] in E3, E4, E5.
     rewrite E4. cbn [bind ok]. rewrite int_of_tN. cbn [bind ok].
     rewrite E5. cbn [bind ok]. rewrite int_of_tN. cbn [bind ok].
     rewrite E3. cbn [bind ok]. rewrite int_of_tZ. cbn [bind ok].
-    cbv zeta. cbn [memZ existsb andb bind ok fold_left].
+    cbv zeta. cbn [memZ existsb andb bind ok fold_left fst snd orb].
+    replace (Z.eqb (Z.of_N (fst (fst b) + 1) - 1) (Z.of_N (snd (fst b) + 1) - 1)) with false
+      by (symmetry; apply Z.eqb_neq; intros E; apply Hb; lia).
     replace (Z.of_N (fst (fst b) + 1) - 1, Z.of_N (snd (fst b) + 1) - 1)%Z with (bkey b)
       by (unfold bkey; f_equal; lia).
     cbn [map] in Hnd.
     rewrite (dict_set_fresh _ _ bkey_eqb (bkey b) (opt_default 1%Z (snd b)) acc bkey_eqb_eq).
     + rewrite IH.
       * rewrite <- app_assoc. reflexivity.
+      * exact Hbs.
       * rewrite map_app, <- app_assoc. exact Hnd.
     + intro Hin. apply NoDup_remove_2 in Hnd. apply Hnd, in_or_app. left. exact Hin.
 Qed.
@@ -1477,7 +1495,9 @@ Record mol_ok (m : mol rpay (option Z)) : Prop := {
   mo_atoms : Forall atom_ok (atoms m);
   mo_labels : NoDup (labels m);                                          (* node names are distinct *)
   mo_bonds : NoDup (map (fun b => (fst (fst b), snd (fst b))) (bonds m));  (* no bond listed twice *)
-  mo_ends : Forall (fun b => In (fst (fst b)) (labels m) /\ In (snd (fst b)) (labels m)) (bonds m) }.
+  mo_ends : Forall (fun b => In (fst (fst b)) (labels m) /\ In (snd (fst b)) (labels m)) (bonds m);
+  mo_noloop : Forall (fun b => fst (fst b) <> snd (fst b)) (bonds m) }.      (* no bond from an atom to itself:
+                                                                              the reader rejects such a line *)
 
 Definition counts_tokens (m : mol rpay (option Z)) : list text :=
   [t "M"; t "V30"; t "COUNTS"; tN (N.of_nat (length (atoms m))); tN (N.of_nat (length (bonds m)));
@@ -1543,7 +1563,7 @@ Theorem write_read_roundtrip : forall line2 m,
   mol_ok m ->
   read_v3000 (write_lines line2 m) = ok (map expected_atom (atoms m), map expected_bond (bonds m)).
 Proof.
-  intros line2 m [Hatoms Hlabels Hbonds Hends].
+  intros line2 m [Hatoms Hlabels Hbonds Hends Hnoloop].
   unfold read_v3000. rewrite (tokenize_lines_write_lines line2 m). cbn [bind ok].
   rewrite (token_lines_shape line2 m Hatoms).
   set (pre := [tokenize []; tokenize line2; tokenize []; tokenize (t "  0  0  0     0  0            999 V3000");
@@ -1617,7 +1637,7 @@ Proof.
         by (rewrite <- !app_assoc; reflexivity).
       apply take_lines_app; [|lia]. rewrite !app_length. unfold pre. cbn [length]. lia. }
     rewrite Htb. unfold B.
-    rewrite (parse_bonds_written (b :: bs) 1 []).
+    rewrite (parse_bonds_written (b :: bs) 1 [] Hnoloop).
     2:{ change (NoDup (map bkey (b :: bs))).
         replace (map bkey (b :: bs))
           with (map (fun p : N * N => (Z.of_N (fst p), Z.of_N (snd p)))
@@ -1842,6 +1862,7 @@ Proof.
   - cbn. repeat (apply NoDup_cons; [cbn; intuition discriminate|]). apply NoDup_nil.
   - cbn. repeat (apply NoDup_cons; [cbn; intuition discriminate|]). apply NoDup_nil.
   - cbn. repeat (apply Forall_cons; [cbn; intuition|]). apply Forall_nil.
+  - cbn. repeat (apply Forall_cons; [cbn; discriminate|]). apply Forall_nil.
 Qed.
 
 Example ex_mol_wrapped : map (@length ascii) (write_lines ex_hdr ex_mol)
@@ -1862,4 +1883,9 @@ Proof. vm_compute. reflexivity. Qed.
 Example ex_duplicate_bond :
   read_v3000 (write_lines ex_hdr (mkMol (atoms ex_mol) [(0%N, 1%N, Some 2%Z); (0%N, 1%N, Some 3%Z)]))
   = ok (map expected_atom (atoms ex_mol), [(0%Z, 1%Z, 3%Z)]).
+Proof. vm_compute. reflexivity. Qed.
+
+(* mo_noloop is needed: the reader rejects a bond line that names the same atom twice *)
+Example ex_self_bond :
+  read_v3000 (write_lines ex_hdr (mkMol (atoms ex_mol) [(0%N, 1%N, Some 2%Z); (1%N, 1%N, None)])) = inl EParser.
 Proof. vm_compute. reflexivity. Qed.
